@@ -402,6 +402,15 @@ func (env *Zlisp) ImportBaseTypes() {
 	}
 
 	for _, e := range GoStructRegistry.Userdef {
+		// The registry is process-wide and also collects the type names of
+		// plain records made by earlier interpreters (e.g. "field", from the
+		// first struct declaration in this process). Such a name must not
+		// replace a builtin function of this interpreter.
+		if sym, known := env.symtable[e.RegisteredName]; known {
+			if _, isBuiltin := env.builtins[sym]; isBuiltin {
+				continue
+			}
+		}
 		env.AddGlobal(e.RegisteredName, e)
 	}
 }
